@@ -57,6 +57,8 @@ type party struct {
 	wrongBody bool
 	// pseudo party (oddshape.go): a fixed foreign stanza
 	fixed *refage.Stanza
+	// pseudo party (unopenable.go): a stanza generated from the file key
+	gen func(fk []byte, label string) refage.Stanza
 }
 
 // tag is the public-key tag of an SSH party, recomputed by the reference.
@@ -73,6 +75,9 @@ func (p *party) tag() string {
 func (p *party) wrap(fk []byte, label string) refage.Stanza {
 	if p.variantOf != nil {
 		return p.variantStanza(fk, label)
+	}
+	if p.gen != nil {
+		return p.gen(fk, label)
 	}
 	if p.fixed != nil {
 		return refage.Stanza{Type: p.fixed.Type, Args: append([]string(nil), p.fixed.Args...), Body: append([]byte(nil), p.fixed.Body...)}
@@ -700,8 +705,11 @@ func runHistory(r *mon.Run, col *collector, b *batch, h []step) (recs []stepRec)
 			return got.class == w.class || (f.lenient && w.class == clsNoMatch && got.class == clsError)
 		}
 		okT, okV := agrees(wantT), agrees(wantV)
-		if f.cls != "" && stateT != "unlocked" {
+		if strings.HasPrefix(f.cls, "foreign-odd-shape") && stateT != "unlocked" {
 			r.Count("foreign_odd_shape_steps_on_locked_identity", 1)
+		}
+		if f.cls == "matching-unopenable" && stateT != "unlocked" && cur.p == right {
+			r.Count("unlocking_calls_on_unopenable_stanza:"+c.kindName(), 1)
 		}
 		if f.variant != "" && stateT != "unlocked" {
 			markNearTag(r, f.variant, c.kindName())
@@ -784,6 +792,7 @@ func main() {
 		"fixed key files: OpenSSH/bcrypt (ssh-keygen -a 2) Ed25519 and RSA, legacy PEM (AES-128-CBC) RSA; RSA moduli of 2048, 2500 and 2052 bits; one right passphrase; wrong = another string, passphrase plus a space, empty, nil",
 		"every step is age.Decrypt with the identity as the only identity, on a well-formed file built by refage; a stanza of the identity's type without arguments is outside the alphabet (C14)",
 		"histories are sequential (C20 covers sharing); the identity value is never copied",
+		"matching-but-unopenable stanzas (right type and tag; body with one bit flipped / one byte short, an extra argument, another key's body under this key's tag): the identity asks, the call with the right passphrase remembers the validated key although the file fails with a hard error, later valid files decrypt without a prompt (Ed25519, RSA OpenSSH 2048/2500 bit, RSA legacy PEM)",
 		"foreign stanzas of odd shapes (no arguments with empty / non-empty body, one short argument, twenty arguments) alone, before, after and between genuine stanzas: not addressed to the key, no prompt, no hard error; the unknown stanza of the multi-identity headers takes these shapes too",
 		"key files whose Ed25519 private blob is seed(X)||pub(Y), X != Y (splitkey.go), built with ssh.MarshalPrivateKeyWithPassphrase: checked against the history-free core only (outcome class equals the first call on a fresh value, nothing is ever decrypted, no prompt without a stanza for the declared key, at most one otherwise)",
 		"every step of the history stage and every call of the shared-slice Unwrap stage runs under a watchdog: a call that stays silent for 20 s after it started (or after the passphrase callback returned) is reported as never-returned and its history abandoned; after 3 such reports the stage stops (the run cannot be 'held' then)",
@@ -1039,6 +1048,11 @@ func main() {
 		hs := addTagVariantFiles(r, c, c.U.tag())
 		batches = append(batches, &batch{c: c, name: "near-tag-histories", count: len(hs), exact: true, history: func(i int) []step { return hs[i] }})
 	}
+	// matching but unopenable stanzas, before and after unlocking
+	for _, c := range []*idConf{edCons, rsaConsO, rsaConsP, rsa2500Cons} {
+		hs := addUnopenableFiles(c)
+		batches = append(batches, &batch{c: c, name: "matching-unopenable-histories", count: len(hs), exact: true, history: func(i int) []step { return hs[i] }})
+	}
 	// foreign stanzas of odd shapes (no arguments, one short argument, twenty)
 	for _, c := range tagConfs {
 		hs := addOddShapeFiles(c)
@@ -1091,6 +1105,11 @@ func main() {
 	if os.Getenv("C19_STAGE") == "" {
 		if len(unsConfs) == 0 {
 			r.Inconclusive("no identity with a stored key of an unsupported type could be constructed")
+		}
+		for _, k := range []string{"ed25519", "rsa-openssh", "rsa-pem"} {
+			if n := r.Counter("unlocking_calls_on_unopenable_stanza:" + k); n < 8 {
+				r.Inconclusive("only %d unlocking calls met a matching but unopenable stanza on a %s identity", n, k)
+			}
 		}
 		if n := r.Counter("foreign_odd_shape_steps_on_locked_identity"); n < 50 {
 			r.Inconclusive("only %d steps put a foreign stanza of an odd shape before a locked identity", n)
